@@ -421,13 +421,19 @@ func init() {
 		return func(t *rapid.T) (any, []any) {
 			o := gen.Opt{Reps: true, Special: true}
 			args := make([]any, k)
+			num := func(label string) any {
+				if rapid.IntRange(0, 3).Draw(t, label+"edge") == 0 {
+					return univ.Copy(rapid.SampledFrom(edgeNumbers).Draw(t, label+"edgeval"))
+				}
+				return gen.Number(o).Draw(t, label)
+			}
 			for i := range args {
-				args[i] = gen.Number(o).Draw(t, "arg")
+				args[i] = num("arg")
 				if rapid.IntRange(0, 9).Draw(t, "ill") == 0 {
 					args[i] = gen.Scalar(mOpt).Draw(t, "illarg")
 				}
 			}
-			return gen.Number(o).Draw(t, "in"), args
+			return num("in"), args
 		}
 	}
 	names1 := make([]string, 0, len(math1))
@@ -484,6 +490,12 @@ func init() {
 		return one([]any{f, i})
 	}, numGen(0))
 }
+
+// edgeNumbers: the magnitude-boundary integers in every exact representation
+// and the doubles next to them; the expected double of an integer is always
+// computed with math/big (floatOf), never with gojq.
+var edgeNumbers = append(boundaryPool(), 9007199254740992.0, 9007199254740994.0, 1e22, 1e23, 8.98846567431158e307, 1e308, math.MaxFloat64, -math.MaxFloat64,
+	math.Inf(1), math.Inf(-1), 1.0715086071862673e301, json.Number("1e308"), json.Number("1.7976931348623157e308"), json.Number("1e309"), json.Number("8.98846567431158e307"))
 
 func sortStrings(s []string) {
 	for i := 1; i < len(s); i++ {
